@@ -130,7 +130,9 @@ def gen_param(rnd, case, pts, key, lo, hi, forms, full=False, nonzero=False):
     raise ValueError(form)
 
 
-def gen_case(rnd, kind='build', tmax=10, grid=None):
+def gen_case(rnd, kind='build', tmax=10, grid=None, window=None):
+    """`window` ('late-start' | 'early-end' | 'inside'): the asset gets an own window placed like that inside the horizon
+    whatever the kind (stream 'window-tables'); None: own windows only in the build stream"""
     freq, unit, step_s, unit_s = rnd.choice(GRIDS)
     if kind != 'build':
         freq, unit, step_s, unit_s = rnd.choice(GRIDS[:9])
@@ -139,6 +141,8 @@ def gen_case(rnd, kind='build', tmax=10, grid=None):
     T = rnd.randint(1, tmax)
     if kind == 'pattern':
         T = rnd.randint(2, tmax)
+    if window is not None:
+        T = rnd.randint(3, max(3, tmax))
     start = pd.Timestamp('2021-01-01') + rnd.choice([0, 0, 6, 24]) * pd.Timedelta(hours=1)
     if freq == 'd':
         start = start.normalize()
@@ -151,7 +155,20 @@ def gen_case(rnd, kind='build', tmax=10, grid=None):
     # window of the asset
     a0, a1 = 0, T
     w = rnd.random()
-    if kind == 'build':
+    if window is not None:
+        # own start strictly after the grid start, own end strictly before the grid end, or both; the bound that is not
+        # inside is left out, given as the grid's own bound, or (end) lies beyond the horizon
+        if window in ('late-start', 'inside'):
+            a0 = rnd.randint(1, T - 1 if window == 'late-start' else T - 2)
+        if window in ('early-end', 'inside'):
+            a1 = rnd.randint(a0 + 1, T - 1)
+        if a0 > 0 or rnd.random() < 0.3:
+            args['start'] = {'$dt': iso(pts[a0])}
+        if a1 < T:
+            args['end'] = {'$dt': iso(pts[a1])}
+        elif rnd.random() < 0.5:
+            args['end'] = {'$dt': iso(pts[-1] + rnd.choice([0, 1, 3]) * step)}
+    elif kind == 'build':
         if w < 0.25 and T >= 2:
             a0 = rnd.randint(0, T - 1)
             a1 = rnd.randint(a0 + 1, T)
@@ -439,6 +456,47 @@ def gen_focus_start_fuel(rnd, tmax=10):
     off0 = rnd.randint(0, 2 * blk - 1)
     case['prices']['m_el'] = [(400. if ((t + off0) // blk) % 2 == 0 else -50.) + q8(rnd, 0, 4) for t in range(T)]
     case['focus'] = 'start_fuel_only'
+    return case
+
+
+def gen_focus_window_tables(rnd, tmax=8):
+    """stream 'window-tables': portfolio case with a plant / CHP whose OWN window starts after the grid start, ends before
+    the grid end, or both (several placements, the other bound absent / equal to the grid's / beyond the horizon), mostly
+    with a fuel node, running consumption, start fuel and start costs in varying forms, mostly a positive minimum
+    capacity, and in part block prices inside the window that make the unit cycle; no ramp profiles.  Judged by
+    `oracle_tables` on the output tables of the whole grid (next to the other portfolio oracles)"""
+    for _ in range(400):
+        case = gen_case(rnd, kind='portfolio', tmax=tmax, window=rnd.choice(['late-start', 'late-start', 'early-end', 'inside', 'inside']))
+        if 'profiles' in case or case['mode'] == 'plain':
+            continue
+        if 'gas' in case['nodes'] or rnd.random() < 0.25:
+            break
+    a = case['args']
+    T = len(case['prices']['m_el'])
+    a0, a1 = case['window']
+    if rnd.random() < 0.7 and (not isinstance(a.get('min_cap'), (int, float)) or a['min_cap'] <= 0):
+        a['min_cap'] = q8(rnd, 0.25, 2)
+    if 'gas' in case['nodes']:
+        if 'consumption_if_on' not in a and rnd.random() < 0.7:
+            a['consumption_if_on'] = q8(rnd, 0.25, 3)
+        if 'start_fuel' not in a and case['mode'] == 'any' and rnd.random() < 0.6:
+            a['start_fuel'] = q8(rnd, 0.5, 4)
+    if 'start_costs' not in a and case['mode'] == 'any' and rnd.random() < 0.4:
+        a['start_costs'] = q8(rnd, 0.5, 9)
+    r = rnd.random()
+    if r < 0.45:
+        # blocks of attractive / unattractive power prices, placed relative to the window
+        blk = rnd.choice([1, 2, 2, 3])
+        off0 = rnd.randint(0, 2 * blk - 1)
+        case['prices']['m_el'] = [(400. if ((t - a0 + off0) // blk) % 2 == 0 else -50.) + q8(rnd, 0, 4) for t in range(T)]
+        if rnd.random() < 0.6:
+            a['min_runtime'] = min(a.get('min_runtime', 0.), 1.) if case['step_s'] >= case['unit_s'] else 0.
+            a['min_downtime'] = min(a.get('min_downtime', 0.), 1.) if case['step_s'] >= case['unit_s'] else 0.
+    elif r < 0.7:
+        # running pays in every step: the unit is on throughout its window
+        case['prices']['m_el'] = [400. + q8(rnd, 0, 4) for t in range(T)]
+    case['focus'] = 'window_tables'
+    case['window_kind'] = 'late-start' if a1 == T else ('early-end' if a0 == 0 else 'inside')
     return case
 
 
@@ -926,9 +984,18 @@ def vec_of(value, pts, I, prices, default, T):
     return out
 
 
-def params_on_grid(case, asset):
+def own_grid(case, asset):
+    """the asset's own (restricted) grid on the grid of the case, computed on a FRESH time grid object: inside a portfolio
+    all assets share one Timegrid object, whose `restricted` is the window of the asset set up last"""
+    tg = scen.make_grid(case['grid'])
+    tg.set_wacc(getattr(asset, 'wacc', 0))
+    tg.set_restricted_grid(asset.start, asset.end)
+    return tg.restricted
+
+
+def params_on_grid(case, asset, rg=None):
     a = scen.dec(copy.deepcopy(case['args']))
-    rg = asset.timegrid.restricted
+    rg = asset.timegrid.restricted if rg is None else rg
     T, I, pts, dt = rg.T, np.asarray(rg.I), list(rg.timepoints), np.asarray(rg.dt, dtype=float)
     pr = np_prices(case)
     g = lambda k, d: vec_of(a.get(k, d), pts, I, pr, d, T)
@@ -1102,6 +1169,95 @@ def oracle_profile_ramp(case, ir, info):
     return viol, obs
 
 
+def oracle_tables(case, I, out, P, prof=False, tar=0):
+    """the last clauses of C06 read from the OUTPUT TABLES of the real code (`io.extract_output`: dispatch per node and
+    step, internal variables bool_on / bool_start as reported), on EVERY step of the optimisation grid - also the steps
+    outside the asset's own window, where it does not exist (nothing reported = off):
+      * where the unit is reported off (or nothing is reported) its output - power, heat, fuel - is zero; where it is
+        reported on, the step belongs to its window and the virtual output lies within [min_cap, max_cap] of that step;
+      * the fuel drawn at the fuel node in a step = virtual output / efficiency + consumption_if_on while reported on +
+        start_fuel where a start is reported (without start variables: at the off->on transitions of the reported state);
+      * a start is reported in every step in which the reported state goes from off to on.
+    Nothing is read from the solution vector or the mapping.  With ramp profiles only the fuel clause is judged"""
+    name = case['name']
+    disp, iv = out['dispatch'], out['internal_variables']
+    Tg = len(disp)
+    I = np.asarray(I, dtype=int)
+
+    def table(df, label):
+        for c in (name + ' (' + label + ')', name if df is disp else None):
+            if c is not None and df is not None and c in df.columns:
+                return pd.to_numeric(df[c], errors='coerce').fillna(0.).values.astype(float), True
+        return np.zeros(Tg), False
+
+    def full(vec, fill=0.):
+        w = np.full(Tg, float(fill))
+        w[I] = vec
+        return w
+    has_heat = case['cls'] in ('CHPAsset', 'CHPAsset_with_min_load_costs')
+    power, _ = table(disp, case['nodes'][0])
+    heat = table(disp, case['nodes'][1])[0] if has_heat else np.zeros(Tg)
+    has_fuel = 'gas' in case['nodes'] and len(case['nodes']) == (3 if has_heat else 2)
+    fuel = table(disp, 'gas')[0] if has_fuel else np.zeros(Tg)
+    on, has_on = table(iv, 'bool_on')
+    start, has_start = table(iv, 'bool_start')
+    on_r, start_r = np.round(on), np.round(start)
+    inside = np.zeros(Tg, dtype=bool)
+    inside[I] = True
+    v = power + full(P['conv'], 1.) * heat
+    sc = max(1., float(np.abs(v).max()))
+    tol = 2e-6 * sc
+    lo, hi = full(P['min_cap']), full(P['max_cap'])
+    first = int(I[0]) if len(I) else 0
+    facts = dict(on_vars=has_on, start_vars=has_start, tar=tar, state=case.get('state'), tables=True, window=[first, int(I[-1]) + 1 if len(I) else 0],
+                 grid_steps=Tg, window_kind=case.get('window_kind'))
+    viol = []
+    obs = {'tables_steps': Tg, 'tables_outside': int(Tg - inside.sum())}
+    # off (or not existing) => nothing produced, nothing drawn
+    for t in range(Tg):
+        if not inside[t]:
+            if abs(power[t]) > tol or abs(heat[t]) > tol or abs(fuel[t]) > tol or on_r[t] != 0 or start_r[t] != 0:
+                viol.append(V('chp.tables', 'output tables, step %d of the grid lies OUTSIDE the own window of the unit (steps %d..%d): power %.6g, heat %.6g, fuel node %.6g, reported on %g, reported start %g - all of them must be zero / absent' % (
+                    t, first, facts['window'][1] - 1, power[t], heat[t], fuel[t], on[t], start[t]), kind='tables_outside_window', step=t, **facts))
+                break
+        elif has_on and not prof:
+            if on_r[t] == 0 and abs(v[t]) > tol:
+                viol.append(V('chp.tables', 'output tables, step %d: the unit is reported off (bool_on %g) but its virtual output is %.6g (power %.6g, heat %.6g)' % (
+                    t, on[t], v[t], power[t], heat[t]), kind='tables_off_nonzero', step=t, **facts))
+                break
+            if on_r[t] == 1 and (v[t] < lo[t] - tol or v[t] > hi[t] + tol):
+                viol.append(V('chp.tables', 'output tables, step %d: the unit is reported on but its virtual output %.6g lies outside [%.6g, %.6g]' % (
+                    t, v[t], lo[t], hi[t]), kind='tables_on_outside', step=t, **facts))
+                break
+    # fuel per step
+    if has_fuel:
+        prev_on = np.concatenate(([0.], on_r[:-1]))
+        if len(I):
+            prev_on[first] = 1. if tar > 0 else 0.
+        trans = ((on_r == 1) & (prev_on == 0)).astype(float)
+        flag = start_r if has_start else (trans if has_on else np.zeros(Tg))
+        exp = -(v / full(P['eff'], 1.)) - (full(P['cons']) * on_r if has_on else 0.) - full(P['start_fuel']) * flag
+        bad = np.where(np.abs(fuel - exp) > 1e-6 * max(1., float(np.abs(exp).max())))[0]
+        obs['tables_fuel_steps'] = int(Tg)
+        if len(bad):
+            t = int(bad[0])
+            viol.append(V('chp.tables', 'output tables, step %d: dispatch at the fuel node %.8g, expected -(virtual output %.6g / efficiency %.6g) - consumption_if_on %.6g x reported on %g - start_fuel %.6g x %s %g = %.8g' % (
+                t, fuel[t], v[t], full(P['eff'], 1.)[t], full(P['cons'])[t], on_r[t], full(P['start_fuel'])[t],
+                'reported start' if has_start else 'off->on transition', flag[t], exp[t]), kind='tables_fuel', step=t, **facts))
+    # a start is reported at every off -> on transition of the reported state (a start reported without a transition is
+    # the recorded finding F-06b and judged on the solution vector by chp.start_flag)
+    if has_start and has_on and not prof:
+        for t in range(Tg):
+            if not inside[t]:
+                continue
+            prev = (1. if tar > 0 else 0.) if t == first else on_r[t - 1]
+            if on_r[t] == 1 and prev == 0 and start_r[t] != 1:
+                viol.append(V('chp.tables', 'output tables, step %d: the reported state goes from off to on but no start is reported (bool_start %g)' % (t, start[t]),
+                              kind='tables_missed_start', step=t, **facts))
+                break
+    return viol, obs
+
+
 # ------------------------------------------------------------------------------------------- (b) optimised portfolio
 def oracle_portfolio(case, info=None, shared=None):
     """optimise plant + markets with the real code and recompute capacity, ramp, heat share, fuel and start
@@ -1135,9 +1291,10 @@ def oracle_portfolio(case, info=None, shared=None):
     with Quiet():
         out = eao.io.extract_output(portf, op, res, prices)
     x = np.asarray(res.x, dtype=float)
-    P = params_on_grid(case, asset)
+    rg_own = own_grid(case, asset)
+    P = params_on_grid(case, asset, rg_own)
     T, dt = P['T'], P['dt']
-    I = np.asarray(asset.timegrid.restricted.I)
+    I = np.asarray(rg_own.I)
     m = op.mapping
     mm = m[m['asset'] == case['name']]
 
@@ -1146,12 +1303,17 @@ def oracle_portfolio(case, info=None, shared=None):
         sel = sel[sel['node'] == node] if node is not None else sel[sel['node'].isna()]
         v = np.zeros(T)
         for idx, r in zip(sel.index, sel.to_dict('records')):
-            k = int(np.where(I == r['time_step'])[0][0])
+            hit = np.where(I == r['time_step'])[0]
+            if not len(hit):
+                stray.append((var_name, int(r['time_step'])))     # a mapping row labelled with a step outside the own window
+                continue
+            k = int(hit[0])
             v[k] = x[idx]
             if var_name == 'bool_start':
                 start_lower[k] = op.l[idx]
         return v, len(sel) > 0
     start_lower = np.zeros(T)
+    stray = []
     power, _ = series('disp', case['nodes'][0])
     has_heat = case['cls'] in ('CHPAsset', 'CHPAsset_with_min_load_costs')
     heat = series('disp', case['nodes'][1])[0] if has_heat else np.zeros(T)
@@ -1168,6 +1330,9 @@ def oracle_portfolio(case, info=None, shared=None):
     facts = dict(on_vars=has_on, start_vars=has_start, tar=tar, state=case.get('state'))
     prof = bool(info and info.get('profiles'))
     phase = np.zeros(T, dtype=bool)
+    # the statement on the output tables, over the whole grid (nothing read from x or the mapping)
+    viol_t, obs_t = oracle_tables(case, I, out, P, prof=prof or any(k.endswith('_bounds') or k.endswith('_bounds_heat') for k in a), tar=tar)
+    viol += viol_t
     if prof:
         shut, has_shut = series('bool_shutdown', None)
         shut_r = np.round(shut)
@@ -1308,7 +1473,7 @@ def oracle_portfolio(case, info=None, shared=None):
         mu = mm[~mm.index.duplicated(keep='first')]
         other = np.zeros(T)
         for idx, r in zip(mu.index, mu.to_dict('records')):
-            if r['var_name'] != 'bool_start':
+            if r['var_name'] != 'bool_start' and r['time_step'] in I:
                 other[int(np.where(I == r['time_step'])[0][0])] += op.c[idx] * x[idx]
         charged = -cash - other
         if has_on:
@@ -1332,7 +1497,7 @@ def oracle_portfolio(case, info=None, shared=None):
         bthr, has_thr = series('bool_threshhold', None)
         if has_thr:
             a_dec = scen.dec(copy.deepcopy(case['args']))
-            rg = asset.timegrid.restricted
+            rg = rg_own
             thr = vec_of(a_dec.get('min_load_threshhold', 0.), list(rg.timepoints), np.asarray(rg.I), np_prices(case), 0., T) * dt
             mlc = vec_of(a_dec.get('min_load_costs'), list(rg.timepoints), np.asarray(rg.I), np_prices(case), 0., T) * dt
             b_r = np.round(bthr)
@@ -1358,6 +1523,9 @@ def oracle_portfolio(case, info=None, shared=None):
     obs = {'solved': True, 'on_steps': int(on_r.sum()) if has_on else None, 'starts': int(start_r.sum()) if has_start else None,
            'value': float(res.value), 'v_max': float(v.max())}
     obs.update(extra_obs)
+    obs.update(obs_t)
+    if stray:
+        obs['mapping_rows_outside_window'] = stray[:6]
     if prof:
         obs['profile_steps'] = nprof
     if n_commit is not None:
